@@ -58,6 +58,7 @@ theorem lib_pft_int (f : Nat) (i : Int) (rest : List Nat)
             injection h1 with h1
             subst h1
             simp at h
+            simp [h]
           · rfl
       · simp only [hg, Bool.false_eq_true, if_false]
   · simp [hr]
@@ -83,8 +84,10 @@ theorem lib_pft_ref (f n g : Nat) (rest : List Nat) (hn : n ≤ 4294967295) (hg 
   unfold ObjParser.intArm ObjParser.intArmW
   have hr1 : (0 ≤ (Int.ofNat n) && (Int.ofNat n) ≤ 4294967295) = true := by simp; omega
   have hr2 : (0 ≤ (Int.ofNat g) && (Int.ofNat g) ≤ 65535) = true := by simp; omega
+  have hb : Lexer.bareRAhead (32 :: 82 :: rest) = true := by
+    simp [Lexer.bareRAhead, Lexer.isAsciiWs]
   simp only [hr1, Bool.not_true, Bool.false_eq_true, if_false, h1, hr2, if_true, lib_next_R]
-  simp
+  simp [hb]
 
 theorem lib_afterDict (f : Nat) (rest : List Nat) (h : libDictFollowOk rest = true) :
     ObjParser.afterDict (f + 1) rest = .ok rest := by
